@@ -345,6 +345,8 @@ def run(cx, rep):
         rep.ob("C05.8", "control/canary-conditional-store", any("fragment_conditional" in h for h in hits) and not any("fragment_unconditional" in h for h in hits),
                "positive control: the canary crate's conditional store (entry().and_modify) must be reported and its unconditional twin must not (reported: %s)" % hits, "canary/rs/src/lib.rs")
     # ---------------------------------------------------------------- C05.9
+    rep.rule("C05.10", "the intersection of two object atoms applies an index signature to the keys only the other operand declares")
+    mapping_intersection_rule(cx, rep, "C05.10")
     rep.rule("C05.9", "`inhabited` is answered only where no negative is left or where the remaining negatives answered it")
     n69 = every_negative_rule(F, rep, "C05.9", engine)
     rep.floor("C05.9", "returns of the base answer outside the base case", n69, 2)
@@ -736,3 +738,47 @@ def every_negative_rule(F, rep, rid, select, collect=False):
                    "%s answers `%s` - what it answers when no negative is left - next to the FIRST negative, without asking the remaining ones: a value that escapes this negative may lie in a later one, so `S <= T1 | T2` is decided differently from `S <= T2 | T1` (and wrongly for one of them)" % (g, base[1].rsplit("::", 1)[-1] if base[0] == "variant" else base[1]),
                    "%s:%s" % (f.file, x["line"]), sample={"fn": g, "base_answer": base[1], "line": x["line"]})
     return hits if collect else n
+
+
+def mapping_intersection_rule(cx, rep, rid):
+    """The intersection of two object atoms is computed key by key.  A key that only ONE operand declares is still
+    constrained by the OTHER operand's index signature (`{name: T} & Record<string, V>` has `name: T & V`); taking
+    `unknown` for the operand that does not declare it leaves `name: T`, and then `X extends X` fails for such an
+    intersection (X \\ X keeps the part of T outside V) and an empty intersection (`{name: number} &
+    Record<string, string>`) is not recognised as `never`.  Decided on the function of the subtyping engine that
+    intersects two mapping atoms: inside the loop over the key names, the member type taken for an operand goes
+    through code (the function itself or a helper it calls) that reads that atom's `indexed_properties`."""
+    F = cx.rs
+    from facts import walk as hwalk
+    fns = [g for g, f in F.fns.items() if g in F.hir and f.kind != "Closure" and "/src/subtyping/" in (f.file or "")
+           and len([i for i in (f.inputs or []) if "MappingAtomicType" in (i or "")]) == 2 and "MappingAtomicType" in (f.output or "")]
+    if len(fns) != 1:
+        rep.anchor_missing(rid, "the function that intersects two mapping atoms; found %d" % len(fns))
+        return
+    g = fns[0]
+    f = F.fns[g]
+    loops = [x for x in hwalk(F.hir[g]["body"]) if x["k"] == "Loop" and x.get("src") == "ForLoop"]
+    n = 0
+    for lp in loops:
+        # the loop over the key names: its body intersects the two member types
+        if not any(x["k"] == "MethodCall" and x["method"] == "intersect" for x in hwalk(lp)):
+            continue
+        n += 1
+        def reads_ix(e, depth=0, seen=None):
+            """the code reads an atom's `indexed_properties`, itself or through the local functions it calls"""
+            seen = seen if seen is not None else {g}
+            for x in hwalk(e):
+                if x["k"] == "Field" and x["name"] == "indexed_properties":
+                    return True
+                if x["k"] in ("Call", "MethodCall") and depth < 3:
+                    tg = F._callee_gid(f.crate, (x.get("resolved") or x.get("callee") or ""))
+                    if tg in F.hir and tg not in seen and "/src/subtyping/" in (F.fns[tg].file or ""):
+                        seen.add(tg)
+                        if reads_ix(F.hir[tg]["body"], depth + 1, seen):
+                            return True
+            return False
+        reads = reads_ix(lp)
+        rep.ob(rid, "%s/missing-key-consults-index-signature" % g.rsplit("::", 1)[-1], reads,
+               "%s intersects two object atoms key by key and never looks at `indexed_properties` while doing so: a key declared by one operand only is not intersected with the other operand's index signature, so `{name: string | null} & Record<string, string>` keeps `name: string | null` - `X extends X` is then decided `no` for it and `{name: number} & Record<string, string>` is not recognised as empty" % g,
+               "%s:%s" % (f.file, lp.get("line")), sample={"fn": g})
+    rep.floor(rid, "per-key loops of the mapping intersection", n, 1)
